@@ -100,6 +100,8 @@ structure World where
   calls : Nat := 0
   fault : Option (Nat × FaultKind) := none
   cancelled : Bool := false
+  /-- ghost: the fault plan has fired (its call position was reached) -/
+  fired : Bool := false
   trace : List Event := []
 
 inductive Hit where
@@ -112,6 +114,7 @@ def World.call (w : World) : Hit × World :=
   match w.fault with
   | some (pos, k) =>
     if pos = w.calls then
+      let w' := { w' with fired := true }
       match k with
       | .err => (.err, w')
       | .errEof => (.err, w')
